@@ -1,77 +1,11 @@
 import SfVerif.Model.Proto
+import SfVerif.Lemmas.Sched
 import SfVerif.Gen.Structure
 /-! C14 — concurrent invocations on different threads do not interfere.
     Steps are provider-level (a destination / plan request and the copy that follows it are
     separate steps), so an interleaving may fall between them. -/
 namespace SfVerif.Props.C14
 open SfVerif SfVerif.Gen
-
-/-- what thread `t` observes in a run: its own answers, in order -/
-def obs (t : Nat) (as : List (Nat × String)) : List String :=
-  as.filterMap (fun p => if p.1 = t then some p.2 else none)
-
-/-- the operations thread `t` performs in a schedule -/
-def script (t : Nat) (sched : Sys.Sched) : List Op :=
-  sched.filterMap (fun p => if p.1 = t then some p.2 else none)
-
-theorem get_set_same (s : Sys) (t : Nat) (th : Thread) : (s.set t th).get t = th := by
-  simp [Sys.get, Sys.set]
-
-theorem get_set_other (s : Sys) (t u : Nat) (th : Thread) (h : u ≠ t) : (s.set t th).get u = s.get u := by
-  simp only [Sys.get, Sys.set]
-  have h1 : ((t, th) :: s.threads.filter (fun p => p.1 != t)).find? (fun p => p.1 == u)
-      = (s.threads.filter (fun p => p.1 != t)).find? (fun p => p.1 == u) := by
-    rw [List.find?_cons_of_neg]; simp; exact fun h' => h h'.symm
-  rw [h1, List.find?_filter]
-  have h2 : (fun (a : Nat × Thread) => decide ((a.1 != t) = true ∧ (a.1 == u) = true)) = (fun a => a.1 == u) := by
-    funext p
-    by_cases hp : p.1 = u
-    · simp [hp, h]
-    · simp [hp]
-  rw [h2]
-
-theorem get_cur (s : Sys) (t u : Nat) : ({ s with cur := t } : Sys).get u = s.get u := rfl
-
-/-- one scheduled step changes only the acting thread, and that thread steps exactly as it would alone -/
-theorem step_local (w : Nat) (s : Sys) (t : Nat) (op : Op) :
-    let r := ({ s with cur := t } : Sys).step w op
-    r.1.get t = ((s.get t).step w op).1 ∧ r.2 = ((s.get t).step w op).2 ∧
-    ∀ u, u ≠ t → r.1.get u = s.get u := by
-  simp only [Sys.step]
-  refine ⟨?_, ?_, ?_⟩
-  · rw [get_set_same]; rfl
-  · rfl
-  · intro u hu; rw [get_set_other _ _ _ _ hu]; rfl
-
-/-- generalised over the starting system: thread `t`'s observations and final state are those
-    of running its own script alone from its own starting state -/
-theorem noninterference_from (w : Nat) (t : Nat) :
-    ∀ (sched : Sys.Sched) (s : Sys),
-      obs t (Sys.runSched w s sched).2 = (Thread.run w (s.get t) (script t sched)).2 ∧
-      (Sys.runSched w s sched).1.get t = (Thread.run w (s.get t) (script t sched)).1 := by
-  intro sched
-  induction sched with
-  | nil => intro s; simp [Sys.runSched, obs, script, Thread.run]
-  | cons hd rest ih =>
-    intro s
-    obtain ⟨u, op⟩ := hd
-    have hl := step_local w s u op
-    simp only at hl
-    obtain ⟨h1, h2, h3⟩ := hl
-    have ihs := ih (({ s with cur := u } : Sys).step w op).1
-    by_cases hut : u = t
-    · subst hut
-      simp only [Sys.runSched, obs, script, List.filterMap_cons, if_true, Thread.run]
-      rw [h1] at ihs
-      simp only [obs, script] at ihs
-      refine ⟨?_, ?_⟩
-      · rw [ihs.1, h2]
-      · exact ihs.2
-    · have hne : t ≠ u := fun h => hut h.symm
-      simp only [Sys.runSched, obs, script, List.filterMap_cons, if_neg hut]
-      rw [h3 t hne] at ihs
-      simp only [obs, script] at ihs
-      exact ihs
 
 /-- **C14**: under every interleaving of any number of threads' scripts, every thread observes
     exactly what it observes running alone (all schedules, all script lengths — no bound). -/
